@@ -405,4 +405,210 @@ theorem self_link_cycle (ds : DblSem) {s : DState} {σ : Store} (hg : DGood s σ
       · intro σ' hg'
         exact dgood_acyclic hg' b0 hcyc
 
+/-! ### the element-assignment forms: `walkMut(v, p)[st] = v`
+
+`v.toList().back() = v` (probe `e`) and `v.toMap().append(k, v)` with a key that is already in the map
+(`HashMap::insert` runs `*it = value`) both execute `Variant::operator=(const Variant&)` on an *existing element* `x` in
+slot `st` of the payload that the accessor chain `walkMut(v, p)->toList()/toMap()` returned, with `other = v`:
+`++other.data->ref; x.clear(); x.data = other.data`.
+
+`selfAssign` models it as the accepted line `mut v (p ++ [st]) clear` (accessor chain along `p`, then `x.clear()`)
+followed by the share-and-install step.  The real code increments the root block *before* `x.clear()`; the two
+orders give the same heap, because after the accessor chain the root block has `ref == 1` (its only handle is `v`),
+so the old element holds no handle to it and its destruction never touches the root's count. -/
+
+/-- `walkMut(v, p)[st] = v` as the real code executes it (see above for the order of the two commuting steps) -/
+def selfAssign (ds : DblSem) (s : DState) (v : Nat) (p : List Step) (st : Step) : Option DState :=
+  match dstep ds s (.mut v (p ++ [st]) .clear) with
+  | none => none
+  | some s1 =>
+    match getCellPath s1.h (s1.vars v) p with
+    | some (.ptr bl) =>
+      (match (copyCell s1.h (s1.vars v)).1.heap bl with
+       | some blk =>
+         (match blk.pay.getCell st with
+          | some _ => some { h := setPay (copyCell s1.h (s1.vars v)).1 bl (blk.pay.setCell st (copyCell s1.h (s1.vars v)).2),
+                             vars := s1.vars }
+          | none => none)
+       | none => none)
+    | _ => none
+
+theorem getCellPath_snoc (h : Heap) : ∀ (p : List Step) (c : Cell) (st : Step),
+    getCellPath h c (p ++ [st]) =
+      (match getCellPath h c p with
+       | some (.ptr b) => (match h.heap b with | some blk => blk.pay.getCell st | none => none)
+       | _ => none) := by
+  intro p
+  induction p with
+  | nil =>
+    intro c st
+    cases c with
+    | ptr b =>
+      simp only [List.nil_append, getCellPath]
+      cases hb : h.heap b with
+      | none => rfl
+      | some blk =>
+        simp only
+        cases hc : blk.pay.getCell st <;> rfl
+    | null => rfl
+    | inl x => rfl
+  | cons s0 p ih =>
+    intro c st
+    cases c with
+    | ptr b =>
+      simp only [List.cons_append, getCellPath]
+      cases hb : h.heap b with
+      | none => rfl
+      | some blk =>
+        simp only
+        cases hc : blk.pay.getCell s0 with
+        | none => rfl
+        | some ci => simp only; exact ih ci st
+    | null => rfl
+    | inl x => rfl
+
+theorem mapPut_cells (m : List (Str × Cell)) (k : Str) (c ci : Cell) (hg : mapGet m k = some ci) :
+    c ∈ (mapPut m k c).map (·.2) ∧ ∀ d, d ≠ ci → d ∈ m.map (·.2) → d ∈ (mapPut m k c).map (·.2) := by
+  induction m with
+  | nil => simp [mapGet] at hg
+  | cons q t ih =>
+    obtain ⟨k', x⟩ := q
+    simp only [mapGet] at hg
+    by_cases hk : (k' == k) = true
+    · simp only [hk, if_true, Option.some.injEq] at hg
+      subst hg
+      simp only [mapPut, hk, if_true, List.map_cons, List.mem_cons, true_or, true_and]
+      intro d hd hm
+      rcases hm with rfl | hm
+      · exact absurd rfl hd
+      · exact Or.inr hm
+    · have hk' : (k' == k) = false := by simpa using hk
+      simp only [hk', Bool.false_eq_true, if_false] at hg
+      obtain ⟨i1, i2⟩ := ih hg
+      simp only [mapPut, hk', Bool.false_eq_true, if_false, List.map_cons, List.mem_cons]
+      refine ⟨Or.inr i1, ?_⟩
+      intro d hd hm
+      rcases hm with rfl | hm
+      · exact Or.inl rfl
+      · exact Or.inr (i2 d hd hm)
+
+theorem listSet_cells (cs : List Cell) (i : Nat) (c ci : Cell) (hg : cs[i]? = some ci) :
+    c ∈ cs.set i c ∧ ∀ d, d ≠ ci → d ∈ cs → d ∈ cs.set i c := by
+  obtain ⟨hi, hci⟩ := List.getElem?_eq_some_iff.1 hg
+  refine ⟨List.mem_set hi c, ?_⟩
+  intro d hd hm
+  obtain ⟨j, hj, e⟩ := List.mem_iff_getElem.1 hm
+  have hne : i ≠ j := by intro e'; subst e'; rw [hci] at e; exact hd e.symm
+  have hj' : j < (cs.set i c).length := by rw [List.length_set]; exact hj
+  exact List.mem_iff_getElem.2 ⟨j, hj', by rw [List.getElem_set_ne hne]; exact e⟩
+
+/-- overwriting the slot that holds `ci` keeps every other cell and stores the new one -/
+theorem setCell_cells {p : Pay} {st : Step} {ci : Cell} (c : Cell) (hg : p.getCell st = some ci) :
+    c ∈ (p.setCell st c).cells ∧ ∀ d, d ≠ ci → d ∈ p.cells → d ∈ (p.setCell st c).cells := by
+  cases st <;> cases p <;> simp only [Pay.getCell] at hg <;> try cases hg
+  · exact listSet_cells _ _ c ci hg
+  · exact listSet_cells _ _ c ci hg
+  · exact mapPut_cells _ _ c ci hg
+
+/-- MAIN (element assignment).  In every state that represents a store of values, for every variable `v`, every path
+    `p` and step `st` such that `p ++ [st]` exists in the value of `v`: `walkMut(v, p)[st] = v` runs without fault and
+    leaves the root block of `v` on a cycle; the state represents no store of values any more. -/
+theorem self_assign_cycle (ds : DblSem) {s : DState} {σ : Store} (hg : DGood s σ) (v : Nat) (hv : v < nvars)
+    (p : List Step) (st : Step) (z : Val) (hz : getPath (p ++ [st]) (σ v) = some z) :
+    ∃ s' b, selfAssign ds s v p st = some s' ∧ s'.vars v = .ptr b ∧ Cyclic s'.h b ∧
+      (∃ blk, s'.h.heap b = some blk ∧ 2 ≤ blk.ref) ∧ ∀ σ', ¬ DGood s' σ' := by
+  -- 1. accessor chain + clear of the element: an accepted line
+  have hf : Leaf.clear.apply ds z = some .null := rfl
+  obtain ⟨y, hy, hy'⟩ := updPath_of_getPath _ (p ++ [st]) (σ v) z _ hz hf
+  have hspec : specStep ds σ (.mut v (p ++ [st]) .clear) = some (upd σ v y) := by
+    simp [specStep, hv, allLt, LeafS.vars, mutOk, LeafS.setsNull, LeafS.eval, hy]
+  obtain ⟨s1, r1, g1⟩ := dstep_refines ds hg (.mut v (p ++ [st]) .clear) trivial hspec
+  obtain ⟨g, i, hrel, htmp⟩ := g1
+  have hval : absCell g (s1.vars v) = y := by rw [hrel v hv]; simp [upd]
+  -- 2. the slot
+  have hcp := getCellPath_abs i (p ++ [st]) (s1.vars v) (var_cellOk i v)
+  rw [hval, hy', getCellPath_snoc] at hcp
+  cases hcp0 : getCellPath s1.h (s1.vars v) p with
+  | none => rw [hcp0] at hcp; cases hcp
+  | some cb =>
+    rw [hcp0] at hcp
+    cases cb with
+    | null => cases hcp
+    | inl x => cases hcp
+    | ptr bl =>
+      simp only at hcp
+      cases hblkl : s1.h.heap bl with
+      | none => rw [hblkl] at hcp; cases hcp
+      | some blkl =>
+        rw [hblkl] at hcp
+        simp only at hcp
+        cases hci : blkl.pay.getCell st with
+        | none => rw [hci] at hcp; cases hcp
+        | some ci =>
+          rw [hci] at hcp
+          obtain ⟨_, habs⟩ := hcp
+          have habs' : absCell g ci = .null := by injection habs with h; exact h.symm
+          -- the slot holds no pointer
+          have hnp : ∀ x, ci ≠ .ptr x := by
+            intro x e
+            subst e
+            have hm := getCell_mem hci
+            obtain ⟨bx, hbx⟩ := i.slive bl blkl x hblkl hm
+            simp only [absCell] at habs'
+            have := absPay_boxed g bx.pay
+            rw [← i.cons x bx hbx, habs'] at this
+            cases this
+          have hroot : ∃ b0, s1.vars v = .ptr b0 := by
+            cases p with
+            | nil => simp only [getCellPath, Option.some.injEq] at hcp0; exact ⟨bl, hcp0⟩
+            | cons st' p' =>
+              cases hc : s1.vars v with
+              | ptr b => exact ⟨b, rfl⟩
+              | null => rw [hc] at hcp0; simp [getCellPath] at hcp0
+              | inl x => rw [hc] at hcp0; simp [getCellPath] at hcp0
+          obtain ⟨b0, hb0⟩ := hroot
+          obtain ⟨blk0, hblk0⟩ := i.live v b0 hb0
+          obtain ⟨blkl', hl', hpay', _⟩ := incr_heap_pay s1.h b0 bl blkl hblkl
+          obtain ⟨blk0', h0', _, _⟩ := incr_heap_pay s1.h b0 b0 blk0 hblk0
+          have href0' : blk0.ref + 1 ≤ blk0'.ref := by
+            have : incr s1.h b0 = { s1.h with heap := upd s1.h.heap b0 (some { blk0 with ref := blk0.ref + 1 }) } := by
+              simp [incr, hblk0]
+            rw [this] at h0'; simp at h0'; subst h0'; simp
+          obtain ⟨hnew, hold⟩ := setCell_cells (.ptr b0) hci
+          let pnew := blkl.pay.setCell st (.ptr b0)
+          let h' := setPay (incr s1.h b0) bl pnew
+          have hh' : ∀ x, h'.heap x = if x = bl then some { blkl' with pay := pnew } else (incr s1.h b0).heap x :=
+            setPay_heap (incr s1.h b0) bl pnew blkl' hl'
+          have hbl' : h'.heap bl = some { blkl' with pay := pnew } := by rw [hh']; simp
+          have hcyc : Cyclic h' b0 := by
+            have hmono : ∀ a b, Edge s1.h a b → Edge h' a b := by
+              rintro a b ⟨blk, ha, hm⟩
+              obtain ⟨blka, hia, hpa, _⟩ := incr_heap_pay s1.h b0 a blk ha
+              by_cases e : a = bl
+              · subst e
+                rw [hblkl] at ha; injection ha with ha; subst ha
+                exact ⟨_, hbl', hold _ (fun e => hnp b e.symm) hm⟩
+              · exact ⟨blka, by rw [hh']; simp [e, hia], by rw [hpa]; exact hm⟩
+            have hr : Reach h' b0 bl := by
+              have := reach_of_getCellPath s1.h p b0 bl (by rw [← hb0]; exact hcp0)
+              exact this.mono hmono
+            have hedge : Edge h' bl b0 := ⟨_, hbl', hnew⟩
+            cases hr with
+            | refl _ => exact ⟨_, hedge, .refl _⟩
+            | step e1 r1' => exact ⟨_, e1, r1'.trans (.step hedge (.refl _))⟩
+          refine ⟨{ h := h', vars := s1.vars }, b0, ?_, hb0, hcyc, ?_, fun σ' hg' => dgood_acyclic hg' b0 hcyc⟩
+          · have hcp0' := hcp0
+            rw [hb0] at hcp0'
+            simp only [selfAssign, r1, hb0, hcp0', copyCell, hl', hpay', hci]; rfl
+          · by_cases e : b0 = bl
+            · subst e
+              rw [hl'] at h0'; injection h0' with h0'; subst h0'
+              refine ⟨_, hbl', ?_⟩
+              have := i.pos b0 blk0 hblk0
+              show 2 ≤ blkl'.ref
+              omega
+            · refine ⟨blk0', by rw [hh']; simp [e, h0'], ?_⟩
+              have := i.pos b0 blk0 hblk0
+              omega
+
 end Nstd.Variant.Deep
